@@ -24,6 +24,8 @@ PROPS = {}
 for _f in sorted(glob.glob(os.path.join(_HERE, "c[0-9][0-9]*.py"))):
     _name = os.path.basename(_f)[:-3]
     _m = importlib.import_module(_name)
+    if not hasattr(_m, "CONFIG"):
+        continue
     _c = dict(_m.CONFIG)
     _c["module"] = _name
     _c["trusted_base"] = COMMON_TB + list(_c.get("trusted_base", []))
